@@ -1182,6 +1182,39 @@ package ring
 //@   ensures implies(isnil(err), n == announced(pol))
 
 // constructors whose results the abstract contracts above the ring layer treat as opaque
+// ---- the generator of NTT-friendly primes (property C19): the candidates of both directions stay
+// ---- congruent to 1 modulo NthRoot, the downstream sequence starts one step BELOW the upstream one and
+// ---- both move away from each other, so no prime is handed out twice; every value returned is prime.
+// ---- (The bit-size windows are float tests, unknown here; NextUpstreamPrime, whose only overflow
+// ---- guard is such a test, is not under contract.)
+//@ spec geninv(n) = 0 < n.NthRoot && n.NextPrime % n.NthRoot == 1 % n.NthRoot && implies(n.CheckPrevPrime, n.PrevPrime % n.NthRoot == 1 % n.NthRoot && n.PrevPrime < n.NextPrime)
+//@ func NewNTTFriendlyPrimesGenerator
+//@   property C19
+//@   requires BitSize < 64 && 0 < NthRoot && pow2(BitSize) % NthRoot == 0
+//@   ensures result.NthRoot == NthRoot && result.NextPrime == pow2(BitSize) + 1
+//@   ensures implies(result.CheckPrevPrime, result.PrevPrime + NthRoot == result.NextPrime)
+//@   ensures geninv(result) by mod_add_multiple(1, pow2(BitSize), NthRoot); mod_shift(pow2(BitSize) + 1, 0 - 1, NthRoot)
+
+//@ func NTTFriendlyPrimesGenerator.NextDownstreamPrime
+//@   property C19
+//@   requires geninv(n)
+//@   ensures implies(result1 == nil, isprime(result0) && result0 % n.NthRoot == 1 % n.NthRoot && result0 <= old(n.PrevPrime) && n.PrevPrime + n.NthRoot == result0)
+//@   ensures n.NextPrime == old(n.NextPrime) && n.NthRoot == old(n.NthRoot) && geninv(n)
+//@   loop 0 invariant NthRoot == n.NthRoot && CheckPrevPrime == old(n.CheckPrevPrime) && n.CheckPrevPrime == old(n.CheckPrevPrime) && n.PrevPrime == old(n.PrevPrime) && n.NextPrime == old(n.NextPrime)
+//@   loop 0 invariant implies(CheckPrevPrime, PrevPrime % NthRoot == 1 % NthRoot && PrevPrime <= n.PrevPrime)
+//@   loop 0 lemma mod_shift(prev(PrevPrime), 0 - 1, NthRoot)
+
+//@ func NTTFriendlyPrimesGenerator.NextAlternatingPrime
+//@   property C19
+//@   requires geninv(n)
+//@   ensures implies(result1 == nil, isprime(result0) && result0 % n.NthRoot == 1 % n.NthRoot)
+//@   ensures implies(result1 == nil, (result0 >= old(n.NextPrime) && n.NextPrime == result0 + n.NthRoot && implies(n.CheckPrevPrime, result0 > n.PrevPrime)) || (old(n.CheckPrevPrime) && result0 <= old(n.PrevPrime) && n.PrevPrime + n.NthRoot == result0 && result0 < n.NextPrime))
+//@   ensures n.NthRoot == old(n.NthRoot) && implies(result1 == nil, geninv(n)) by mod_shift(NextPrime, 1, NthRoot); mod_shift(NextPrime, 0 - 1, NthRoot); mod_shift(PrevPrime, 0 - 1, NthRoot)
+//@   loop 0 invariant NthRoot == n.NthRoot && 0 < NthRoot && NextPrime % NthRoot == 1 % NthRoot && NextPrime >= n.NextPrime
+//@   loop 0 invariant n.PrevPrime == old(n.PrevPrime) && n.NextPrime == old(n.NextPrime) && n.CheckPrevPrime == old(n.CheckPrevPrime) && geninv(n)
+//@   loop 0 invariant implies(CheckPrevPrime, n.CheckPrevPrime && PrevPrime % NthRoot == 1 % NthRoot && PrevPrime <= n.PrevPrime)
+//@   loop 0 lemma mod_shift(prev(PrevPrime), 0 - 1, NthRoot); mod_shift(prev(NextPrime), 1, NthRoot)
+
 //@ afunc NewRing
 //@   trusted opaque at the abstract level: a ring or an error
 
